@@ -22,6 +22,9 @@ elif prop.endswith("f"):        # sixth round: seeds numbered from 15
 elif prop.endswith("g"):        # seventh round: seeds numbered from 18
     prop = prop[:-1]
     dst_k = str(int(k) + 17)
+elif prop.endswith("h"):        # eighth round: seeds numbered from 21
+    prop = prop[:-1]
+    dst_k = str(int(k) + 20)
 else:
     dst_k = k
 summary = sys.argv[5] if len(sys.argv) > 5 else ""
